@@ -45,6 +45,7 @@ func init() {
 		return o
 	}}
 	properties["T20"] = &propertyDef{Decides: "debug", Run: func(c *rules.Ctx) []report.Obligation { return c.SEC("SEC") }}
+	properties["T02"] = &propertyDef{Decides: "debug", Run: func(c *rules.Ctx) []report.Obligation { return c.ORD("ORD", "LOAD", "RENDER", "SELECT", "GRAPH") }}
 	properties["C01"] = &propertyDef{
 		Decides:    "no unchecked type assertion on input-derived data in code reachable from the load entry points outside the proved / justified / known set (PANIC-TA)",
 		NotDecided: "termination, stack bounds, nil dereferences, panics inside dependencies",
